@@ -2,6 +2,7 @@ package verifsim
 
 import (
 	"bytes"
+	"compress/gzip"
 	"context"
 	"fmt"
 	"io"
@@ -317,10 +318,110 @@ func runC16Overlap(r *simkit.Run) {
 	r.State(fmt.Sprintf("overlap algo=%s closes=%v pre=%d", algo, closes, nPre), "request")
 }
 
+// runC16RawHeader: a gzip body sent by a raw client whose Content-Encoding header is spelled unusually (other case,
+// surrounding blanks, a list of codings, "identity"). The server may decode it or refuse it with a client error before
+// the handler runs; what it may not do is run the handler on bytes that are neither the original body nor - when the
+// header names no coding at all - the bytes as sent.
+func runC16RawHeader(r *simkit.Run) {
+	tp := r.Tape
+	hv := []string{"GZIP", "Gzip", " gzip", "gzip ", "gzip, gzip", "gzip,identity", "identity", "x-gzip", "gzip;q=1"}[tp.Draw(9)]
+	body := makeBody(tp, "text", tp.Range(1, 3000))
+	var zb bytes.Buffer
+	zw := gzip.NewWriter(&zb)
+	_, _ = zw.Write(body)
+	_ = zw.Close()
+	wire := zb.Bytes()
+	r.Sample = map[string]any{"mode": "raw-header", "content_encoding": hv, "body_len": len(body)}
+	r.Logf("raw header %q body %d bytes (gzip %d bytes)", hv, len(body), len(wire))
+	r.Count("probe.raw_content_encoding_header")
+	var hwg sync.WaitGroup
+	var got []byte
+	var readErr error
+	ran := false
+	handler := http.HandlerFunc(func(w http.ResponseWriter, req *http.Request) {
+		hwg.Add(1)
+		defer hwg.Done()
+		b, err := io.ReadAll(req.Body)
+		got, readErr, ran = b, err, true
+		if err != nil {
+			http.Error(w, err.Error(), http.StatusBadRequest)
+			return
+		}
+		w.WriteHeader(http.StatusOK)
+	})
+	sc := confighttp.NewDefaultServerConfig()
+	port, _ := nextPortPair()
+	for i := 0; i < 200 && !portsFree(port); i++ {
+		port, _ = nextPortPair()
+	}
+	sc.Endpoint = fmt.Sprintf("127.0.0.1:%d", port)
+	sc.TLSSetting = nil
+	srv, err := sc.ToServer(context.Background(), componenttest.NewNopHost(), componenttest.NewNopTelemetrySettings(), handler)
+	if err != nil {
+		panic(err)
+	}
+	srv.SetKeepAlivesEnabled(false)
+	ln, err := sc.ToListener(context.Background())
+	if err != nil {
+		r.Count("probe.infra_socket_unavailable")
+		time.Sleep(200 * time.Millisecond)
+		return
+	}
+	done := make(chan struct{})
+	go func() { _ = srv.Serve(ln); close(done) }()
+	req, err := http.NewRequest(http.MethodPost, "http://"+ln.Addr().String()+"/", bytes.NewReader(wire))
+	if err != nil {
+		panic(err)
+	}
+	req.Header["Content-Encoding"] = []string{hv}
+	req.Close = true
+	cl := &http.Client{Timeout: 10 * time.Second}
+	resp, perr := cl.Do(req)
+	status := 0
+	if perr == nil {
+		status = resp.StatusCode
+		_, _ = io.Copy(io.Discard, resp.Body)
+		_ = resp.Body.Close()
+	}
+	cl.CloseIdleConnections()
+	_ = srv.Close()
+	<-done
+	hwg.Wait()
+	r.Events++
+	r.Nontrivial = true
+	if perr != nil {
+		if strings.Contains(perr.Error(), "cannot assign requested address") || strings.Contains(perr.Error(), "address already in use") {
+			r.Count("probe.infra_socket_unavailable")
+			return
+		}
+		r.Logf("client error: %v", sanitize(perr, port))
+		return
+	}
+	r.Logf("status=%d handlerRan=%v got=%d bytes", status, ran, len(got))
+	switch {
+	case !ran:
+		if status < 400 || status > 499 {
+			r.Failf("reject", "raw-header/status", "Content-Encoding %q: the handler did not run and the response status is %d (expected a client error)", hv, status)
+		}
+	case readErr != nil:
+		// the handler ran and reading failed: it got an error, not wrong bytes
+	case bytes.Equal(got, body):
+		r.Count("probe.raw_header_decoded")
+	case strings.TrimSpace(strings.ToLower(hv)) == "identity" && bytes.Equal(got, wire):
+		// no coding named: the bytes pass as sent
+	default:
+		r.Failf("content", "raw-header/handler-read-undecoded-or-wrong-bytes", "Content-Encoding %q: the handler read %d bytes that are neither the %d original bytes nor an error (the %d bytes as sent: %v)", hv, len(got), len(body), len(wire), bytes.Equal(got, wire))
+	}
+}
+
 func runC16(r *simkit.Run) {
 	tp := r.Tape
 	if tp.Chance(1, 6) {
 		runC16Overlap(r)
+		return
+	}
+	if tp.Chance(1, 12) {
+		runC16RawHeader(r)
 		return
 	}
 	cfg := c16Cfg{}
